@@ -47,7 +47,7 @@ Print Assumptions C07_meek_tied_list_arithmetics.
    step of every Gregory rule, in EVERY state it can be run in (Fixed / integer / Guarded guard 0).
    [excludes_a_lowest s s'] : there is a hopeful candidate c of s whose tally is <= every hopeful's tally, and the statuses
    and pending flags of s' are those of s with c (and nobody else) changed to defeated. *)
-From Droop Require Import Model.RulesGregory Proofs.ForwardOps Proofs.LowestExcluded.
+From Droop Require Import Model.RulesGregory Proofs.Forward Proofs.ForwardOps Proofs.LowestExcluded.
 Theorem C07_single_exclusion_excludes_a_lowest_candidate : forall A S (ZL : zlike A S) cfg, exact A = false ->
   forall bt msg (s : est A), bt_ok A bt ->
   crashed (defeat_low A cfg bt msg s) = false ->
@@ -89,3 +89,16 @@ Theorem C07_largest_surplus_is_transferred_first : forall A S (ZL : zlike A S) c
   (exists hv, max_vote A (pendings A s) = Some hv /\ snd (bt (filter (fun c => eqv A (cvote c) hv) (pendings A s)) s) = None).
 Proof. exact transfer_high_transfers_a_largest. Qed.
 Print Assumptions C07_largest_surplus_is_transferred_first.
+
+(* ---- QPQ: "lowest quotient".  One step of the rule, in every state, when it does not crash: the one candidate whose status
+   changes is a hopeful with the largest quotient among the hopefuls (it is elected) or the smallest (it is excluded). *)
+Theorem C07_qpq_elects_highest_excludes_lowest_quotient : forall A S (ZL : zlike A S) cfg, exact A = false -> forall s : est A,
+  crashed (qpq_step A cfg s) = false ->
+  exists c, In c (hopefuls A s) /\
+    ((forall c', In c' (hopefuls A s) -> raw ZL (quo_of A c') <= raw ZL (quo_of A c)) /\
+       stl A (cands (qpq_step A cfg s)) = stl A (upd_cand A (cid c) (fun x => with_st x Elected (Some false)) (cands s))
+     \/
+     (forall c', In c' (hopefuls A s) -> raw ZL (quo_of A c) <= raw ZL (quo_of A c')) /\
+       stl A (cands (qpq_step A cfg s)) = stl A (upd_cand A (cid c) (fun x => with_st x Defeated (cpend x)) (cands s))).
+Proof. exact qpq_step_extreme_quotient. Qed.
+Print Assumptions C07_qpq_elects_highest_excludes_lowest_quotient.
